@@ -357,12 +357,17 @@ class C16(PropBase):
         "modelled by its indices (FIFO contract, C09); which bytes a callback slice holds is the prefix of the body of that length",
         "the streaming fetch is compared with C16/Model.v (and so with the real code) on every case whose last server is the only one that sends a body: "
         "with C09's recogniser for bodies with lines < 6000 bytes, with the line recogniser of C16/Driver.v for the generated bodies with longer lines",
-        "RAII of NamedTempFile (removed on drop unless persisted), std::fs semantics, kernel rename/link atomicity, reqwest/hyper/tokio: "
-        "runtime, exercised by the harness, not modelled",
+        "ownership: C16/Raii.v interprets the step list of fetch_symbol_file (translated by c16_fsops.py) with a frame of owned locals and ONE drop site "
+        "(frame left by return / `?` / future dropped at an await; a dropped NamedTempFile removes its file; commit_cache_file takes it by value); "
+        "C16/Model.v is proved equal to that interpreter on the translated list. Trusted: that rustc runs drops where the language says, tempfile's Drop "
+        "(remove_file, errors ignored), persist_noclobber forgetting the path on success; a killed process runs no drops",
+        "std::fs semantics, kernel rename/link atomicity, reqwest/hyper/tokio (incl. redirect following inside send()): runtime, exercised by the harness, not modelled",
         "extraction ExtrOcamlBasic only; ocaml/c16/main.ml (script -> event list, CRC32); harness/src/bin/c16.rs (scripted server, poll-counting drop adapter)",
     ]
     assumptions = [
         "c16_rehit_same: parser = C09/C10's parse_bytes (the real parser's verdict when all lines are < 80 KiB), contract proved there (c10_cached_form_parse); hypothesis url_ok for the server URLs (always true for Url::to_string()). For inputs with over-long lines only c16_rehit_same_any_parser (contract assumed) and the harness apply",
+        "c16_stream_*: hypotheses split_ok b (the byte decomposition is faithful: proved for split_c, StreamProofs2.split_c_ok) and delivered script = |b| (the input of the parse IS what the body delivers); "
+        "c16_stream_verdict_chunk_independent / c16_stream_download_then_cache_hit additionally lines < 80 KiB (C10's class; its bound is tight: c10_bound_is_tight)",
         "the single-lookup theorems take race = None; concurrent clients are covered by the c16_shared_* theorems, in which every client runs THIS code (same operation programs) "
         "and each file-system operation is atomic; a foreign writer with other code, and a crash of the whole process (no RAII cleanup), are not modelled",
         "c16_shared_*: hypotheses m_cache f = c0 (whatever is at the path initially) and an initially empty tmp directory; clients use the cache path of one module",
@@ -373,7 +378,9 @@ class C16(PropBase):
                 "file-system calls, every parser verdict function): a cache entry is created only at the module's path and only after a "
                 "non-error status, the clean end of the whole body and parser Ok on exactly those bytes; it then equals downloaded bytes "
                 "(+ one newline iff they lack a final newline) + `INFO URL u\\n`; tmp is as before after every finished run and holds at most "
-                "the one in-flight file while pending; every non-success run leaves the whole cache untouched; local paths and cache decide "
+                "the one in-flight file while pending (c16_no_stray_tmp / c16_locate_no_stray_tmp, round 5 without `_partial`: derived from c16_raii_every_program -- an interpreter of "
+                "fetch_symbol_file's step list under ownership rules, one drop site, leaves no temp file for EVERY program -- and c16_model_is_ownership_semantics -- the model's state machine "
+                "IS that interpreter on the step list translated from http.rs); every non-success run leaves the whole cache untouched; local paths and cache decide "
                 "before the network (only NotFound cascades); servers are asked in order, once each; a later cache hit gives the same table and URL without a request (c16_rehit_same: "
                 "for C09/C10's parser model with its proved contract, url_ok the only hypothesis). Shared cache (any number of clients running this code, every interleaving of their network "
                 "events and of their individual file-system operations; the operation order of create_cache_file / commit_cache_file is translated from http.rs on every run): "
@@ -386,7 +393,9 @@ class C16(PropBase):
                 "c16_stream_entry_only_from_whole_body (Ok only if the body did not fail, the loop returned Ok and the callback had been given EVERY byte; the entry is then "
                 "whole body + [newline] + note, or unchanged, or an older entry removed and persist failed; every error leaves the cache untouched; tmp as before in all cases), "
                 "c16_stream_verdict_chunk_independent (lines < 80 KiB: the verdict is the schedule-free one for every chunking), c16_stream_failed_body_leaves_nothing, "
-                "c16_stream_dropped_leaves_nothing_partial (drop after any number of loop iterations), c16_stream_loop_is_source, c16_stream_download_then_cache_hit "
+                "c16_stream_dropped_leaves_nothing_partial (drop after any number of loop iterations), c16_stream_lookup_entry_only_from_whole_body (every server list, every response), "
+                "c16_stream_note_is_reported_url (which URL -- requested or final after redirects -- is reported and which is written into the note is translated from http.rs; they are the same source, "
+                "so for every redirect target the entry's note is the URL the lookup reported), c16_stream_loop_is_source, c16_stream_download_then_cache_hit "
                 "(C09/C10 recogniser: streamed download under any chunking, then the whole-file parse of the entry: same table, URL of the note), c16_stale_flag_refuted "
                 "(the loop with a `consumed == 0` fast path before the bookkeeping returns Ok after 15 of 23 bytes). "
                 "Runtime behaviour NOT modelled but exercised: reqwest/hyper/tokio (incl. redirect following), NamedTempFile RAII, rename atomicity — "
@@ -394,9 +403,9 @@ class C16(PropBase):
                 "drops at poll boundaries; 2-3 suppliers sharing cache+tmp with server-controlled interleavings, directory snapshots at every release point) and is compared with the extracted "
                 "models; an independent oracle re-checks cache/tmp trees, the survival of committed entries across other clients' failures, and the re-hit.",
         "note": "Trusted: Coq kernel; hand-written model (correspondence-checked only); parser abstract (C09/C10); kernel/file-system and HTTP stack are runtime. "
-                "F-C16a (URL lost on cache hit for an over-long unterminated last line) fixed in /repo 13aaab3. Only c16_no_stray_tmp_partial / "
-                "c16_locate_no_stray_tmp_partial / c16_stream_dropped_leaves_nothing_partial keep the suffix: NamedTempFile's Drop is a definition of the model, not derived. "
-                "Redirects: reqwest follows them inside send(); the model has one URL per server (the requested one, which the code both reports and writes into the note); "
+                "F-C16a (URL lost on cache hit for an over-long unterminated last line) fixed in /repo 13aaab3. Only "
+                "c16_stream_dropped_leaves_nothing_partial keeps the suffix (the streaming composition is not run under the ownership interpreter: its exit drop is a definition). "
+                "Redirects: reqwest follows them inside send() (runtime); in lookup_stream every response carries an arbitrary final URL; "
                 "the oracle demands that the entry's note names the URL the download reported and that the cache hit reports it too.",
     }
 
@@ -1083,6 +1092,11 @@ class C16(PropBase):
             inflight = sum(1 for a in answers if a and re.search(r"inflight=[1-9]", a))
             ctx["info"]["drops_" + prof] = drops
             ctx["info"]["drops_with_temp_file_in_flight_" + prof] = inflight
+            followups = sum(1 for a in answers if a and re.search(r"q=[^ }]*:3e", a))
+            ctx["info"]["lookups_with_redirect_followup_" + prof] = followups
+            if not ctx["replay"] and len(answers) > 1000 and followups == 0:
+                out.append({"case": None, "profile": prof, "found_input": False,
+                            "what": "no lookup logged a follow-up request of a redirect chain: the redirect cases no longer exercise redirects"})
             if not ctx["replay"] and drops >= 50 and inflight == 0:
                 out.append({"case": None, "profile": prof, "found_input": False,
                             "what": "none of %d dropped lookups was dropped while its temp file existed: the drop cases no longer exercise the RAII window" % drops})
